@@ -142,7 +142,13 @@ def check_pending(ctx, facts, fnpath, prefix, rule='pending-needs-waker'):
     return bad
 
 
-def waker_list_takes(o):
+def is_taker(facts, d):
+    """a function of the module that hands a list of wakers to its caller (return type mentions Waker): the caller must wake them"""
+    sg = facts.sig(d) if facts is not None else None
+    return bool(sg) and 'core::task::wake::Waker' in sg[0]
+
+
+def waker_list_takes(o, facts=None):
     """events that move a waker list out of shared state"""
     n = 0
     for e in o.events:
@@ -150,7 +156,8 @@ def waker_list_takes(o):
             continue
         nm = e[1]
         a0 = tag_of(e[2][0]) if e[2] else None
-        if nm.endswith('ChannelState::<T>::take_recv_wakers') or nm.endswith('::bad_take_wakers'):
+        if nm.endswith('ChannelState::<T>::take_recv_wakers') or nm.endswith('::bad_take_wakers') or \
+                (facts is not None and nm in facts.fn_index and is_taker(facts, nm)):
             n += 1
         elif nm == 'core::option::Option::<T>::take' and a0 and ('wakers' in a0):
             n += 1
@@ -164,10 +171,10 @@ def check_taken_woken(ctx, facts, prefix, file_suffix, rule='taken-wakers-woken'
     n = 0
     for d, i in sorted(set(C16.module_fns(facts, prefix, file_suffix))):
         rec = facts.fn(d, i)
-        if rec.get('coroutine') or d.endswith('take_recv_wakers'):
-            continue
+        if rec.get('coroutine') or d.endswith('take_recv_wakers') or is_taker(facts, d):
+            continue      # a taker hands the list to its caller; the obligation is checked at its call sites
         try:
-            outs = explore(facts, rec, prefix)
+            outs = explore(facts, rec, prefix, no_inline=tuple(x for x in facts.fn_index if x.startswith(prefix) and is_taker(facts, x)))
         except Undecidable:
             continue
         worst = None
@@ -175,7 +182,7 @@ def check_taken_woken(ctx, facts, prefix, file_suffix, rule='taken-wakers-woken'
         for o in outs:
             if any(e[0] == 'loopcut' for e in o.events):
                 continue
-            takes = waker_list_takes(o)
+            takes = waker_list_takes(o, facts)
             if not takes:
                 continue
             has = True
@@ -324,7 +331,9 @@ def run(ctx):
         for fld in allowed:
             if any(atom(o, fld) for o in outs):
                 nw += 1
-                if d not in allowed[fld]:
+                # a private helper all of whose callers are protocol functions of that counter is part of the protocol
+                callers = set(f.callers_of(d))
+                if d not in allowed[fld] and not (callers and callers <= allowed[fld]):
                     ctx.fail('who-may-write', '%s in %s' % (fld, d), ctx.loc(rec), '%s is modified outside its protocol functions' % fld, key='who-may-write|%s|%s' % (fld, d))
                 else:
                     ctx.ok('who-may-write', '%s in %s' % (fld, d))
